@@ -21,14 +21,23 @@ gvars == <<vars, hist>>
 S(name, k, v) == [a |-> name, k |-> k, v |-> v, x |-> <<>>]
 L(name, k, v) == hist' = Append(hist, S(name, k, v))
 
-\* what a power failure left of every file: number of whole records per file in ascending id order,
-\* and whether the active file ends in a torn record
+\* what a power failure left of every file: per file in ascending id order the number of whole records kept
+\* and the number it held (x = kept_1, total_1, kept_2, total_2, ...); k = 1 if the active file ends in a torn record
 Whole(rs) == Len(SelectSeq(rs, LAMBDA r : r.t # TORN))
 CutLabel == LET fs == AscSeq(Fids) IN
             [a |-> "powerloss", k |-> IF HasTorn' THEN 1 ELSE 0, v |-> 0,
-             x |-> [i \in 1..Len(fs) |-> Whole(dir'[fs[i]])]]
+             x |-> [i \in 1..2 * Len(fs) |-> IF i % 2 = 1 THEN Whole(dir'[fs[(i + 1) \div 2]]) ELSE Len(dir[fs[i \div 2]])]]
+\* which kind of scan step MergeScan takes: 0 one record, 1 next file, 2 the scan is over
+ScanKind == IF merge.fi > Len(merge.files) THEN 2
+            ELSE IF merge.ri > Len(dir[merge.files[merge.fi]]) THEN 1 ELSE 0
 
 GInit == Init /\ hist = <<>>
+
+\* Simulation mode picks successors at random; faults, restarts and merges of a database that holds nothing yet
+\* teach little, so the generator takes them only once the run is warm (this restricts which behaviours are
+\* generated, not what the engine may do: the exhaustive configurations of XiXiKV have no such guard).
+Warm == nops >= 3 \/ nfaults > 0 \/ nrestarts > 0 \/ st # "open"
+Losable == \E f \in Fids : durable[f] < Len(dir[f])
 
 GNext ==
   \/ \E k \in Keys, v \in Vals : PutBegin(k, v) /\ L("put", k, v)
@@ -39,14 +48,14 @@ GNext ==
   \/ \E sy \in BOOLEAN : NewBatch(sy) /\ L("newbatch", IF sy THEN 1 ELSE 0, 0)
   \/ \E k \in Keys, v \in Vals \cup {Nil} : BStage(k, v) /\ L("bstage", k, v)
   \/ BCommit /\ L("bcommit", 0, 0)
-  \/ MergeBegin /\ L("mergebegin", 0, 0)
+  \/ Warm /\ MergeBegin /\ L("mergebegin", 0, 0)
   \/ MergeRm /\ L("mergerm", 0, 0)
   \/ MergeMk /\ L("mergemk", 0, 0)
-  \/ MergeScan /\ L("mergescan", 0, 0)
+  \/ MergeScan /\ L("mergescan", ScanKind, 0)
   \/ MergeMark /\ L("mergemark", 0, 0)
-  \/ CloseCall /\ L("close", 0, 0)
-  \/ Crash /\ L("crash", 0, 0)
-  \/ PowerLoss /\ hist' = Append(hist, CutLabel)
+  \/ Warm /\ CloseCall /\ L("close", 0, 0)
+  \/ Warm /\ Crash /\ L("crash", 0, 0)
+  \/ Losable /\ PowerLoss /\ hist' = Append(hist, CutLabel)
   \/ OpenLock /\ L("openlock", 0, 0)
   \/ AdoptStep /\ L("adoptstep", 0, 0)
   \/ OpenLoad /\ L("openload", 0, 0)
